@@ -98,6 +98,7 @@ struct Builder {
    ObsStats* st = nullptr;
    bool proto = false;
    const char* cat = "?";
+   const char* cur = "?";   // accessor being called
 
    // type-erased so that the try/catch skeleton is compiled once, not once per accessor
    template<class F>
@@ -108,6 +109,7 @@ struct Builder {
    void fld_impl(const char* name, Val (*call)(void*), void* closure)
    {
       if (st) ++st->accessors;
+      cur = name;
       try {
          out.push_back({name, call(closure)});
       }
@@ -142,6 +144,10 @@ struct Builder {
    Val val(const T& x)
    {
       if constexpr (std::is_base_of_v<Node, T>) {
+         // a valid result is an object of the type the accessor promises (an unchecked down-cast inside the library
+         // would hand back some other node under that static type)
+         if (st && dynamic_cast<const T*>(static_cast<const Node*>(&x)) == nullptr)
+            st->mistyped.push_back(std::string(cat) + "." + cur + ": the node returned is not of the accessor's static type " + typeid(T).name());
          touch(x);
          return Val::node(x);
       }
@@ -216,6 +222,61 @@ struct Builder {
       }
       if (k != n) bad("iteration visited " + std::to_string(k) + " elements, size() is " + std::to_string(n));
       if (!(s.position(n) == e)) bad("position(size()) != end()");
+      if (!(s.position(0) == s.begin())) bad("position(0) != begin()");
+      // the iterator algebra, each operation against positional access: ++it, it++, --it, it--, ->, ==, !=
+      {
+         std::vector<std::size_t> ks;
+         for (std::size_t i = 0; i <= n && i < 6; ++i) ks.push_back(i);
+         for (std::size_t i = n > 6 ? n - 6 : 6; i <= n; ++i) ks.push_back(i);
+         for (auto i : ks) {
+            const auto at = s.position(i);
+            if (i < n) {
+               auto a = at;
+               auto& ra = ++a;
+               if (!(a == s.position(i + 1)) || &ra != &a) bad("++it does not move to position(i+1)");
+               auto c = at;
+               auto old = c++;
+               if (!(old == at) || !(c == s.position(i + 1))) bad("it++ does not yield the old position and move to position(i+1)");
+               bool same = false;
+               try {
+                  same = at.operator->() == &*at;
+               }
+               catch (const std::logic_error&) {
+                  same = true;   // an element that refuses is refused by both routes (checked elsewhere)
+               }
+               if (!same) bad("operator-> differs from &*it");
+            }
+            if (i > 0) {
+               auto a = at;
+               auto& ra = --a;
+               if (!(a == s.position(i - 1)) || &ra != &a) bad("--it does not move to position(i-1)");
+               auto c = at;
+               auto old = c--;
+               if (!(old == at) || !(c == s.position(i - 1))) bad("it-- does not yield the old position and move to position(i-1)");
+            }
+            for (auto j : ks) {
+               const bool eq = at == s.position(j), ne = at != s.position(j);
+               if (eq != (i == j) || ne == eq) bad("== / != on iterators disagree with the positions compared");
+            }
+         }
+         // backwards from end(): size() elements, the same ones in reverse order
+         std::size_t back = 0;
+         for (auto r = s.end(); r != s.begin() && back <= n; ++back) {
+            auto was = r--;
+            (void)was;
+            if (back < n && n - 1 - back < xs.size()) {
+               Val v;
+               try {
+                  v = val(*r);
+               }
+               catch (const std::logic_error&) {
+                  v = xs[n - 1 - back];
+               }
+               if (!(v == xs[n - 1 - back])) bad("backward iteration element differs from position(i)");
+            }
+         }
+         if (back != n) bad("backward iteration visited " + std::to_string(back) + " elements, size() is " + std::to_string(n));
+      }
       // at or beyond size(): refused with a logic_error
       const std::size_t probes[] = {n, n + 1, n + 17, std::size_t(-1), std::size_t(-1) / 2};
       for (auto p : probes) {
